@@ -9,7 +9,7 @@ From Coq Require Import List NArith ZArith Bool.
 Import ListNotations.
 From Mos Require Import model.I64 Gen.BinOps model.Expr Gen.PassLoop model.PassLoop spec.PassLoopSpec Gen.C06Sites model.Sites
   proofs.PassLoopProofs proofs.SitesProofs model.Spans proofs.SpansProofs.
-From Mos Require model.Nom model.Parser proofs.ParserTotalProofs model.SourceMap model.Listing spec.ListingSpec proofs.StagesTotal.
+From Mos Require model.Nom model.Parser proofs.ParserTotalProofs proofs.ParserProgressProofs model.SourceMap model.Listing spec.ListingSpec proofs.StagesTotal.
 Open Scope Z_scope.
 
 (* ================================================================== the pass loop *)
@@ -314,14 +314,24 @@ Theorem C06_parser_never_panics : forall s,
   snd (Parser.source_file Nom.st0 (Nom.mkIn 0%N s)) <> Nom.Abort Nom.Panic.
 Proof. exact ParserTotalProofs.source_file_never_panics. Qed.
 Print Assumptions C06_parser_never_panics.
-(* parse_with_instance (`all_consuming(source_file)(input).ok().unwrap()`) panics exactly when the statement loop
-   reports nom's no-progress error, i.e. a statement / error token was accepted without consuming anything -- the exact
-   guard; that no statement alternative does that is not proved here (partial) *)
-Theorem C06_parse_panics_iff_partial : forall s,
+(* parse_with_instance (`all_consuming(source_file)(input).ok().unwrap()`) can panic only when the statement loop
+   reports nom's no-progress error, i.e. a statement / error token was accepted without consuming anything ... *)
+Theorem C06_parse_panics_iff : forall s,
   Parser.parse s = Parser.ParsePanic <->
   snd (Nom.many0 (Nom.alt Parser.statement Parser.error) Nom.st0 (Nom.mkIn 0%N s)) = Nom.Err.
 Proof. exact ParserTotalProofs.parse_panics_iff. Qed.
-Print Assumptions C06_parse_panics_iff_partial.
+Print Assumptions C06_parse_panics_iff.
+(* ... and that never happens: every statement alternative starts with a terminal that consumes at least one character
+   (keyword tables translated from the source: no empty tag), the error token consumes at least its lead or one
+   non-stop character, and nothing after that gives input back; from any state, on any input *)
+Theorem C06_statement_loop_never_errs : forall st i,
+  snd (Nom.many0 (Nom.alt Parser.statement Parser.error) st i) <> Nom.Err.
+Proof. exact ParserProgressProofs.statement_loop_never_errs. Qed.
+Print Assumptions C06_statement_loop_never_errs.
+(* so the parser never panics, on any text *)
+Theorem C06_parse_never_panics : forall s, Parser.parse s <> Parser.ParsePanic.
+Proof. exact ParserProgressProofs.parse_never_panics. Qed.
+Print Assumptions C06_parse_never_panics.
 (* listing writer (model/Listing.v): for every well-formed emission (C11's invariant of what the code generator leaves
    behind), spans inside their files and n > 0 bytes per line: no panic (n = 0 is rejected before the writer runs
    since d1e6ad5) *)
